@@ -1,6 +1,7 @@
 package mon
 
 import (
+	"context"
 	"crypto/tls"
 	"bytes"
 	"crypto/sha256"
@@ -741,6 +742,35 @@ func c12IDs(w *core.W, j int) {
 			w.Violation("C12/datagram-exchange-hang", "two exchanges on one scripted datagram Conn did not return", nil)
 		}
 	}
+	// the deadline may come from the caller's context instead of the client's timeouts: with only
+	// foreign replies arriving the exchange ends at that deadline (not at the client's one-hour timeout,
+	// not never), with the matching reply behind two foreign ones it succeeds
+	if j%5 == 2 {
+		for _, withReal := range []bool{false, true} {
+			script := [][]byte{mk(q.Id+7, "foreign"), mk(q.Id^0x0100, "foreign")}
+			if withReal {
+				script = append(script, mk(q.Id, "real"))
+			}
+			sc := netsim.NewScripted(script)
+			cc := &dns.Client{Timeout: time.Hour}
+			ctx, cancel := context.WithTimeout(context.Background(), 150*time.Millisecond)
+			var rep *dns.Msg
+			var err error
+			w.Eval(1)
+			w.Count("context_deadline_exchanges", 1)
+			returned := within(c12Watch, func() { rep, _, err = cc.ExchangeWithConnContext(ctx, q, &dns.Conn{Conn: sc}) })
+			cancel()
+			switch {
+			case !returned:
+				w.Violation("C12/datagram-context-deadline-ignored", fmt.Sprintf("ExchangeWithConnContext (context deadline 150 ms, client timeout 1 h, matching reply scripted: %v) did not return within %v", withReal, c12Watch), nil)
+				sc.Close()
+			case withReal && (err != nil || rep == nil || rep.Id != q.Id):
+				w.Violation("C12/datagram-real-reply-missed/context", fmt.Sprintf("two replies with other IDs preceded the matching one; err=%v", err), nil)
+			case !withReal && err == nil:
+				w.Violation("C12/datagram-foreign-id-accepted/context", fmt.Sprintf("only replies with other IDs were delivered, the exchange returned id %d", rep.Id), nil)
+			}
+		}
+	}
 	// datagrams: 0..5 stale/duplicate/foreign replies before the real one
 	n := r.IntN(6)
 	var script [][]byte
@@ -834,6 +864,13 @@ func c12CrossTalk(w *core.W, j int) {
 	}
 	started := make(chan struct{})
 	srv := &dns.Server{Addr: "127.0.0.1:0", Net: network, Handler: log.handler(hold), NotifyStartedFunc: func() { close(started) }, TsigSecret: c12Secrets}
+	// every fourth round the server reads and writes through user-supplied decorators (pass-through,
+	// counting): the same exchanges, the same oracle
+	var decoReads, decoWrites atomic.Int64
+	if j%4 == 3 {
+		srv.DecorateReader = func(r dns.Reader) dns.Reader { return c12Reader{r, &decoReads} }
+		srv.DecorateWriter = func(wr dns.Writer) dns.Writer { return c12Writer{wr, &decoWrites} }
+	}
 	var tlsCli *tls.Config
 	if network == "tcp-tls" {
 		srv.TLSConfig, tlsCli = c13TLS()
@@ -1049,6 +1086,13 @@ func c12CrossTalk(w *core.W, j int) {
 	for _, s := range sents {
 		sentBy[s.key] = s
 	}
+	if j%4 == 3 {
+		w.Count("decorated_reads", int(decoReads.Load()))
+		w.Count("decorated_writes", int(decoWrites.Load()))
+		if int(decoWrites.Load()) < len(log.handled) || int(decoReads.Load()) < len(log.handled) {
+			w.Count("decorators_bypassed", 1)
+		}
+	}
 	w.Count("declared_source_addresses_checked_"+network, log.addrs)
 	if len(log.addrBad) > 0 {
 		w.Violation("C12/handler-told-wrong-peer/"+network, fmt.Sprintf("%d of %d requests that declared their source address were handled with another RemoteAddr: %s", len(log.addrBad), log.addrs, log.addrBad[0]), nil)
@@ -1117,6 +1161,37 @@ func c12CrossTalk(w *core.W, j int) {
 	if w.WantSample() {
 		w.Sample(map[string]any{"network": network, "clients": nclients, "sent": len(sents), "handled": len(log.handled), "accepted": len(accepted), "hook_hits": ctl.Hits()})
 	}
+}
+
+type c12Reader struct {
+	dns.Reader
+	n *atomic.Int64
+}
+
+func (r c12Reader) ReadTCP(conn net.Conn, t time.Duration) ([]byte, error) {
+	b, err := r.Reader.ReadTCP(conn, t)
+	if err == nil {
+		r.n.Add(1)
+	}
+	return b, err
+}
+
+func (r c12Reader) ReadUDP(conn *net.UDPConn, t time.Duration) ([]byte, *dns.SessionUDP, error) {
+	b, s, err := r.Reader.ReadUDP(conn, t)
+	if err == nil {
+		r.n.Add(1)
+	}
+	return b, s, err
+}
+
+type c12Writer struct {
+	dns.Writer
+	n *atomic.Int64
+}
+
+func (w c12Writer) Write(b []byte) (int, error) {
+	w.n.Add(1)
+	return w.Writer.Write(b)
 }
 
 // c12MultiHomed: a UDP server on the wildcard address, one client per local address (127.0.0.1 and
